@@ -3,6 +3,7 @@ package main
 import (
 	"encoding/json"
 	"fmt"
+	"math/rand"
 	"sort"
 	"strings"
 	"sync"
@@ -339,8 +340,11 @@ func (w *lmWorker) explore(sk, uuid string, lab *lmm.Labels) {
 // every few operations), comparing the full read set after every step.
 func lmSimulate(c *Ctx, run, run12 *ev.Run, g *lmm.Geom, initSV []uint64, num, depth int, edges *int64) (int, int64) {
 	files := map[string][]byte{"LabelGeom.tla": []byte(g.TLAConstantsDownres(initSV, nil, nil))}
-	files["gen_lm_sim.cfg"] = []byte(lmConfig(g, maxU64(initSV), depth, true, true))
-	r := c.RunTLC(tlc.Opts{Module: "Labelmap_mc", Config: "gen_lm_sim.cfg", Files: files, Workers: 1, Simulate: fmt.Sprintf("num=%d", num), Depth: depth + 1,
+	simCfg := strings.Replace(lmConfig(g, maxU64(initSV), depth, true, true), "SPECIFICATION SpecEmit", "SPECIFICATION SpecSim", 1)
+	simCfg = strings.Replace(simCfg, "INVARIANTS EmitObs", "INVARIANTS EmitObs EmitHist", 1)
+	simCfg = strings.Replace(simCfg, "VIEW View\n", "", 1)
+	files["gen_lm_sim.cfg"] = []byte(simCfg)
+	r := c.RunTLC(tlc.Opts{Module: "Labelmap_sim", Config: "gen_lm_sim.cfg", Files: files, Workers: 1, Simulate: fmt.Sprintf("num=%d", num), Depth: depth + 1,
 		Seed: c.Seed, Timeout: 20 * time.Minute})
 	obsOf := map[string]lmm.Obs{}
 	type rawEdge struct {
@@ -351,41 +355,49 @@ func lmSimulate(c *Ctx, run, run12 *ev.Run, g *lmm.Geom, initSV []uint64, num, d
 	var behaviours [][]rawEdge
 	var initKey *lmm.Key
 	var initObs lmm.Obs
-	// In simulation mode TLC evaluates Next for every successor of the current state (printing
-	// one edge line each) and then picks one; the invariant line that follows tells which.
-	pending := map[string]rawEdge{}
-	cur := ""
+	seenB := map[string]bool{}
 	PrintedJSON(r.Output, func(raw []byte) {
 		var probe struct {
-			K   *lmm.Key `json:"k"`
-			D   int      `json:"d"`
-			Obs lmm.Obs  `json:"obs"`
+			K    *lmm.Key `json:"k"`
+			D    int      `json:"d"`
+			Obs  lmm.Obs  `json:"obs"`
+			Hist []struct {
+				L lmm.Op  `json:"l"`
+				T lmm.Key `json:"t"`
+			} `json:"hist"`
 		}
-		if json.Unmarshal(raw, &probe) == nil && probe.K != nil {
-			k := probe.K.Canon()
-			obsOf[k] = probe.Obs
-			if probe.D == 0 {
-				if initKey == nil {
-					initKey = probe.K
-					initObs = probe.Obs
-				}
-				behaviours = append(behaviours, nil)
-				cur = k
-				pending = map[string]rawEdge{}
-				return
-			}
-			if e, ok := pending[cur+"=>"+k]; ok && len(behaviours) > 0 {
-				behaviours[len(behaviours)-1] = append(behaviours[len(behaviours)-1], e)
-			}
-			cur = k
-			pending = map[string]rawEdge{}
+		if json.Unmarshal(raw, &probe) != nil {
 			return
 		}
-		var e rawEdge
-		if json.Unmarshal(raw, &e) == nil && e.L.Op != "" {
-			pending[e.S.Canon()+"=>"+e.T.Canon()] = e
+		if probe.K != nil {
+			obsOf[probe.K.Canon()] = probe.Obs
+			if probe.D == 0 && initKey == nil {
+				initKey = probe.K
+				initObs = probe.Obs
+			}
+			return
+		}
+		if len(probe.Hist) > 0 && initKey != nil {
+			var b []rawEdge
+			prev := *initKey
+			sig := ""
+			for _, h := range probe.Hist {
+				b = append(b, rawEdge{S: prev, L: h.L, T: h.T})
+				prev = h.T
+				sig += h.T.Canon() + ";"
+			}
+			if !seenB[sig] {
+				seenB[sig] = true
+				behaviours = append(behaviours, b)
+			}
 		}
 	})
+	// the histories of one simulated trace differ only in their last step: keep a seeded sample
+	if len(behaviours) > num*4 {
+		rng := rand.New(rand.NewSource(c.Seed))
+		rng.Shuffle(len(behaviours), func(i, j int) { behaviours[i], behaviours[j] = behaviours[j], behaviours[i] })
+		behaviours = behaviours[:num*4]
+	}
 	if initKey == nil || len(behaviours) == 0 {
 		infra("labelmap simulation emitted nothing: %s", r.Tail(1500))
 	}
